@@ -264,7 +264,7 @@ def step (m : MState) (e : TEv) : MState :=
         -- C13: no spinning — more than 60 store calls of one instance within 100 ms is not timer-paced activity
         let recent := e.t :: (x.recentCalls.filter fun t => t + 100000000 > e.t)
         let w := checkW w (recent.length ≤ 60 || x.recentCalls.length > 60) "C13" "store-hammering" s!"instance {i} issued {recent.length} store operations within 100 ms"
-        let x := { x with recentCalls := recent }
+        let x := { x with recentCalls := recent, runToks := (match val with | .own id tok _ => if id == i && !x.runToks.contains tok then tok :: x.runToks else x.runToks | _ => x.runToks) }
         let w := w.setInst x
         let isRefreshAttempt := kind == .update && x.flag && (match val with | .own id tok _ => id == i && tok == x.flagTok | _ => false)
         if isRefreshAttempt then
@@ -363,13 +363,23 @@ def step (m : MState) (e : TEv) : MState :=
                   else { w0 with storeMismatch := s!"line {w0.line}: expire of {key} rev {rev} but live rev is {r.rev}" :: w0.storeMismatch }
       | none => { w0 with storeMismatch := s!"line {w0.line}: expire of absent {key}" :: w0.storeMismatch }
     { m with w := c02 (verifyTrack w) h }
+  | .texpire key rev =>
+    { m with w := { w0 with tombs := w0.tombs.filter fun p => !(p.1 == key && p.2 == rev) } }
   | .extPut key _ val =>
     let w := checkW w0 (¬ h.noOutside) "HYP" "no-outside-writer" "ext put"
     { m with w := c02 (verifyTrack (recordLost (w.mutate 0 .extPut key 0 (some val)) h key (w.live key))) h }
   | .extDelete key _ =>
     let w := checkW w0 (¬ h.noOutside) "HYP" "no-outside-writer" "ext delete"
     { m with w := c02 (verifyTrack (recordLost (w.mutate 0 .extDelete key 0 none) h key (w.live key))) h }
-  | .wev _ _ _ _ => { m with w := w0 }
+  | .wev _ i rev _ =>
+    -- a notification older than the newest version of the key is stale news for the follower's LeaderID (C18 convergence)
+    match w0.inst? i with
+    | none => { m with w := w0 }
+    | some x =>
+      let newest := match w0.live x.cfg.key with
+        | some rr => rr.rev
+        | none => (w0.tombs.lookup x.cfg.key).getD 0
+      if rev ≠ 0 ∧ rev < newest then { m with w := w0.setInst { x with lastStaleWev := e.t } } else { m with w := w0 }
   | .wdrop _ _ _ => { m with w := w0 }
   | .flag i b il tok lid =>
     match w0.inst? i with
@@ -456,12 +466,12 @@ def step (m : MState) (e : TEv) : MState :=
                                   demotesAtCall := (match w0.inst? i with | some x => x.demotes | none => 0),
                                   ownerAtCall := (match w0.inst? i with
                                     | some x => (match w0.live x.cfg.key with
-                                        | some rr => (match rr.val with | .own id _ _ => id == i && rr.writer == i | _ => false)
+                                        | some rr => (match rr.val with | .own id tok _ => id == i && rr.writer == i && x.runToks.contains tok | _ => false)
                                         | none => false)
                                     | none => false),
                                   tokAtCall := (match w0.inst? i with | some x => x.flagTok | none => 0) } :: w0.apis }
     let w := match k with
-      | .start => w.updInst i fun x => { x with stoppedSince := none, stopCalledSince := none, everStarted := true, lastTo := 1, startedAt := e.t, candidateSince := e.t }
+      | .start => w      -- takes effect when it returns ok (it holds the election's lock for the whole call)
       | .validate _ | .validateOrDemote _ => verifyTrack w
       | .stop | .stopctx _ _ _ _ => (match w.inst? i with | some x => earlyCancelled w x e.t | none => w).updInst i fun x =>
           let y := endTerm x
@@ -472,11 +482,17 @@ def step (m : MState) (e : TEv) : MState :=
     | some a, some x =>
       let w := { w0 with apis := w0.apis.filter (·.n ≠ n) }
       let w := match a.kind, r with
+        | .start, .ok =>
+          ({ w with apis := w.apis.map fun (a : ApiCall) => if a.inst = i then { a with superseded := true } else a } : World).updInst i fun x =>
+            { x with runToks := [], stoppedSince := none, stopCalledSince := none, everStarted := true, lastTo := 1, startedAt := e.t, candidateSince := e.t }
         | .stop, .ok =>
+          -- a Start called while this stop was in progress begins a new run: the stop's guarantees end there
+          if a.superseded then (w.setInst { x with stopsInProgress := x.stopsInProgress - 1 }).hit "C09:stop-superseded-by-start" else
           let w := w.setInst { x with stopsInProgress := x.stopsInProgress - 1, stoppedSince := some e.t }
           let w := checkW w (¬ x.flag) "C09" "leader-when-stop-returns" s!"instance {i} still reports leadership when Stop returns"
           w
         | .stopctx del _ _ _, .ok =>
+          if a.superseded then (w.setInst { x with stopsInProgress := x.stopsInProgress - 1 }).hit "C09:stop-superseded-by-start" else
           let w := w.setInst { x with stopsInProgress := x.stopsInProgress - 1, stoppedSince := some e.t }
           let w := checkW w (¬ x.flag) "C09" "leader-when-stop-returns" s!"instance {i} still reports leadership when StopWithContext returns"
           let mine := match w.live x.cfg.key with
@@ -515,7 +531,7 @@ def step (m : MState) (e : TEv) : MState :=
         | some (oid, since) =>
           let settle := 500000000 + 3 * h.maxLat
           if h.maxLat > 0 ∧ oid > 0 ∧ ¬ il2 ∧ x.everStarted ∧ x.stopCalledSince.isNone ∧ ¬ x.cut ∧ e.t ≥ h.faultsEnd + settle ∧
-             since + settle < e.t ∧ x.candidateSince + settle < e.t ∧
+             since + settle < e.t ∧ x.candidateSince + settle < e.t ∧ (x.lastStaleWev = 0 ∨ x.lastStaleWev + settle < e.t) ∧
              ¬ (w.ops.any fun p => p.inst == i && (p.applied == some Applied.dropped || decide (p.issued < h.faultsEnd)))
           then checkW w (lid == oid.toNat) "C18" "follower-leaderid-not-converged"
                  s!"instance {i} is a follower since {x.candidateSince}; the record has named {oid} since {since}; LeaderID={lid}"
